@@ -266,8 +266,8 @@ def c14(hist, stats=None):
             entered = any(s <= pseq for s, _ in h.enters)
             fin = None
             for s, _, k in h.exits:
-                if k in ('ret', 'exc') and s <= pseq:
-                    fin = k
+                if k in ('ret', 'exc', 'cexc') and s <= pseq:
+                    fin = 'exc' if k == 'cexc' else k
                     break
             cancelled = any(k == 'cancelled' and s <= pseq
                             for s, _, k in h.exits)
@@ -293,7 +293,8 @@ def c14(hist, stats=None):
             # unfinished: it must never be reported done
             asked = [s for s, _ in h.cancel_req if s <= pseq]
             if done and asked and not any(
-                    k in ('ret', 'exc') and s < asked[0] for s, _, k in h.exits):
+                    (k in ('ret', 'exc') and s < asked[0]) or k == 'cexc'
+                    for s, _, k in h.exits):
                 bad('cancelled-reported-done',
                     "cancellation was requested (seq {}) before the body "
                     "finished, yet the job is reported done".format(asked[0]))
@@ -492,6 +493,11 @@ def c04(hist):
         if raising and kind == 'exc':
             # the exception object tells the cause as well
             cands = [objs.get(m, {}).get('exc') for _, _, m in crits]
+            # a critical job that raised while being cancelled is "one of
+            # its critical jobs that raised" as well
+            cands += [objs.get(mh.nid, {}).get('exc') for mh in sr.mh
+                      if mh.spec['critical']
+                      and any(k == 'cexc' for _, _, k in mh.exits)]
             if any(val is c for c in cands):
                 exc_cause = 'critical'
             elif isinstance(val, TimeoutError):
@@ -1125,7 +1131,7 @@ def c10(hist, stats=None):
         if psr.over is not None and psr.over[2] != 'cancelled':
             tie = psr.exp_t is not None and psr.exp_t <= sr.over[1]
             other = any(mh.nid != sid and mh.spec['critical'] and
-                        any(k == 'exc' for _, _, k in mh.exits)
+                        any(k in ('exc', 'cexc') for _, _, k in mh.exits)
                         for mh in psr.mh)
             if psr.verdict == 'success':
                 out.append(Violation(
